@@ -16,7 +16,7 @@ Faults(op, n) == {NoFault}
 \* not a fault: the destination already holds a file of that name and length with other bytes (newer mtime)
 \* ("stalelong": the old file is longer than the new one - what is left of it after the copy must be nothing)
 Stale == UNION {{[k |-> "up", op |-> op, kind |-> kd, shapes |-> Plain(n), fault |-> [kind |-> sk, at |-> i, stage |-> ""]] :
-                    i \in 1..(n + 1), sk \in {"stale", "stalelong"}} : op \in {"copy", "move"}, kd \in Kinds, n \in 1..MaxN}
+                    i \in 1..(n + 1), sk \in {"stale", "stalelong", "stalesame"}} : op \in {"copy", "move"}, kd \in Kinds, n \in 1..MaxN}
 \* not a fault either: the destination directory lies on another filesystem (rename(2) answers EXDEV there)
 XDev == UNION {{[k |-> "up", op |-> op, kind |-> kd, shapes |-> Plain(n), fault |-> [kind |-> "xdev", at |-> 0, stage |-> ""]] :
                    op \in {"copy", "move"}, kd \in Kinds} : n \in 0..MaxN}
